@@ -9,7 +9,6 @@ import (
 	"sort"
 	"strconv"
 	"strings"
-	"time"
 
 	"perkeep.org/pkg/sorted"
 	"perkeep.org/pkg/sorted/buffer"
@@ -150,6 +149,9 @@ type gen struct {
 	ex   func([]string) string
 	ref  refMap
 	impl string
+	max  int64          // buffer configurations: maxBufferBytes
+	cfg  string         // "impl max…" of the running case
+	hangs map[string]int // hangs seen per configuration
 }
 
 var alphabet = []byte{0x00, 0x01, '|', ':', 'a', 'b', '-', 0x7f, 0x80, 0xfe, 0xff}
@@ -377,6 +379,46 @@ func shuffleMuts(rnd *hk.Rand, ms []mut) {
 	}
 }
 
+// crossingCases: batches that put more than max bytes into the buffer and contain {delete k; set k},
+// {set k; delete k} and repeated keys, with k only in the backing store, only in the buffer, in both.
+func crossingCases(max int64) [][]op {
+	k, j := []byte("k"), []byte("j")
+	fillers := func(tag byte) []mut {
+		var ms []mut
+		need := max + 1
+		for i := 0; need > 0; i++ {
+			n := int64(60000)
+			if need < n {
+				n = need
+			}
+			ms = append(ms, mut{k: []byte{'f', tag, byte(i)}, v: bytes.Repeat([]byte{tag}, int(n))})
+			need -= n
+		}
+		return ms
+	}
+	bt := func(tag byte, ms ...mut) op { return op{name: "batch", muts: append(ms, fillers(tag)...)} }
+	set := func(k []byte, v string) mut { return mut{k: k, v: []byte(v)} }
+	del := func(k []byte) mut { return mut{del: true, k: k} }
+	tail := []op{{name: "get", a: k}, {name: "get", a: j}, {name: "find"}, {name: "dump"}, {name: "reopen"},
+		{name: "get", a: k}, {name: "get", a: j}, {name: "find"}}
+	cases := [][]op{
+		// k in the backing store only; {delete k; set k}
+		append([]op{{name: "set", a: k, b: []byte("old")}, {name: "flush"}, bt(1, del(k), set(k, "new"))}, tail...),
+		// k wherever Set left it; {delete k; set k}
+		append([]op{{name: "set", a: k, b: []byte("old")}, bt(2, del(k), set(k, "new"))}, tail...),
+		// {set k; delete k} with k in the backing store
+		append([]op{{name: "set", a: k, b: []byte("old")}, {name: "flush"}, bt(3, set(k, "new"), del(k))}, tail...),
+		// repeated keys, both orders, two keys, twice in a row
+		append([]op{bt(4, set(k, "v1"), del(k)), {name: "get", a: k}, {name: "set", a: k, b: []byte("v2")},
+			bt(5, set(j, "1"), del(j), set(j, "2"), del(k), set(k, "v3"), set(k, "v4")),
+			{name: "get", a: k}, bt(6, del(j), del(k), set(k, "v5"), set(j, "3"), del(j))}, tail...),
+		// the filler first, the conflict last
+		append([]op{{name: "set", a: k, b: []byte("old")}, {name: "flush"},
+			{name: "batch", muts: append(fillers(7), del(k), set(k, "new"), del(j), set(j, "x"))}}, tail...),
+	}
+	return cases
+}
+
 func sizeBucket(n int) string {
 	switch {
 	case n == 0:
@@ -428,6 +470,23 @@ func (g *gen) batchHits(o op) {
 	if n > 0 {
 		r.Hit("batch:max-repeat-of-a-key:" + sizeBucket(maxRep))
 	}
+	if g.impl == "buffer" {
+		// bytes this batch puts into the buffer: does its commit alone cross maxBuffer?
+		var size int64
+		for _, m := range o.muts {
+			if !m.del && sizesOK(m.k, m.v) {
+				size += int64(len(m.k) + len(m.v))
+			}
+		}
+		if size > g.max {
+			for c := range conf {
+				r.Hit("batch:crosses-maxBuffer:" + c + ":" + g.cfg)
+			}
+			if maxRep > 1 {
+				r.Hit("batch:crosses-maxBuffer:repeated-key:" + g.cfg)
+			}
+		}
+	}
 	if n > 12 {
 		for c := range conf {
 			r.Hit("batch:over12:conflict:" + c + ":" + g.impl)
@@ -461,6 +520,10 @@ func (g *gen) do(o op) {
 	g.sizeHits(o)
 	line := o.line()
 	out := g.raw(line)
+	if out == "hang" {
+		r.Fail(g.impl+":hang:"+o.name, "the call did not return ("+g.cfg+"): "+short(line), "an answer", "hang", r.CaseOps())
+		return
+	}
 	if o.name == "dump" {
 		if g.impl != "buffer" {
 			if out != "na" {
@@ -505,12 +568,23 @@ func (g *gen) mergeHits(o op) {
 	if g.in.bufKV == nil {
 		return
 	}
+	if g.in.hung {
+		return
+	}
 	var a, b []string
-	if hk.Guard(func() string {
-		a, _ = scan(g.in.bufKV.Find(string(o.a), string(o.b)))
-		b, _ = scan(g.in.backKV.Find(string(o.a), string(o.b)))
+	bufKV, backKV := g.in.bufKV, g.in.backKV
+	switch watch(func() string {
+		a, _ = scan(bufKV.Find(string(o.a), string(o.b)))
+		b, _ = scan(backKV.Find(string(o.a), string(o.b)))
 		return ""
-	}) != "" {
+	}) {
+	case "":
+	case "hang":
+		// e.g. a batch or iterator left open on the backing store by an earlier op
+		g.in.hung, g.in.kv = true, nil
+		g.r.Fail("buffer:hang:side-scan", "Find on the buffer's own stores did not return ("+g.cfg+")", "rows", "hang", g.r.CaseOps())
+		return
+	default:
 		g.r.Hit("merge:side-scan-panicked")
 		return
 	}
@@ -601,15 +675,25 @@ func nontrivial(ops []op) bool {
 // runCase runs one op sequence on one implementation as one case.
 func (g *gen) runCase(label string, c implCfg, ops []op) {
 	r := g.r
+	cfg := strings.TrimSpace(c.impl + " " + c.max)
+	if g.hangs == nil {
+		g.hangs = map[string]int{}
+	}
+	if g.hangs[cfg] >= 2 {
+		// this configuration has blocked twice (recorded as failures): do not pay the time limit again
+		r.Hit("skipped-after-hangs:" + cfg)
+		return
+	}
 	r.Case(label + " " + c.impl + " " + c.max)
 	g.in = &interp{}
 	liveSwap(g.in)
 	g.ex = g.in.guarded
 	g.ref = refMap{}
-	g.impl = c.impl
+	g.impl, g.cfg, g.max = c.impl, cfg, 0
 	open := "open " + c.impl
 	if c.impl == "buffer" {
 		open += " " + c.max
+		g.max, _ = strconv.ParseInt(strings.Fields(c.max)[0], 10, 64)
 	}
 	if out := g.raw(open); out != "ok" {
 		r.Fail(c.impl+":open", "cannot open", "ok", out, r.CaseOps())
@@ -617,6 +701,12 @@ func (g *gen) runCase(label string, c implCfg, ops []op) {
 	}
 	for _, o := range ops {
 		g.do(o)
+		if g.in.hung {
+			// the store is abandoned, the case ends here, the run goes on
+			g.hangs[cfg]++
+			r.Hit("hang:" + cfg)
+			return
+		}
 	}
 	if nontrivial(ops) {
 		r.Distinct(c.impl + c.max + ":" + hashOps(ops))
@@ -704,11 +794,11 @@ func (g *gen) malformedCase(c implCfg) {
 func Run(r *hk.Run) {
 	defer Cleanup()
 	g := &gen{r: r, rnd: r.R}
-	r.Res.Rule = "a scenario is a random sequence of get/set/del/batch/find/flush/reopen/dump over a small key universe with batches of 0-6 and of 11-400 mutations (the large ones over 1-5 hot keys with conflicting set/delete successions and interleaved oversize sets) (one random base with its 0x00/0xff/'|'/':' extensions and prefixes, the empty key, index-like keys; in 'big' scenarios also 766/767/768-byte keys and 62999/63000/63001-byte values); every scenario is run as one case on each of mem, leveldb, kvfile, sqlite, buffer(mem,mem) with maxBuffer -1, 0, 40 and 1000000, and buffer(mem, leveldb|kvfile|sqlite); reopen-heavy scenarios (25% reopen) make leveldb compact; many-keys scenarios hold 300-700 rows; each answer is compared with the Lean model (correspondence) and with a reference map (oracle). distinct = distinct (implementation, op sequence) with at least 2 mutations and 2 reads"
+	r.Res.Rule = "a scenario is a random sequence of get/set/del/batch/find/flush/reopen/dump over a small key universe with batches of 0-6 and of 11-400 mutations (the large ones over 1-5 hot keys with conflicting set/delete successions and interleaved oversize sets) (one random base with its 0x00/0xff/'|'/':' extensions and prefixes, the empty key, index-like keys; in 'big' scenarios also 766/767/768-byte keys and 62999/63000/63001-byte values); every scenario is run as one case on each of mem, leveldb, kvfile, sqlite, buffer(mem,mem) with maxBuffer -1, 0, 40 and 1000000, and buffer(mem, leveldb|kvfile|sqlite) with maxBuffer 40 (kvfile also 1000); hand-written and random batches {delete k; set k}, {set k; delete k} and repeated keys whose commit crosses maxBuffer run on every buffer configuration; reopen-heavy scenarios (25% reopen) make leveldb compact; many-keys scenarios hold 300-700 rows; each answer is compared with the Lean model (correspondence) and with a reference map (oracle). distinct = distinct (implementation, op sequence) with at least 2 mutations and 2 reads"
 
 	cfgs := []implCfg{{"mem", ""}, {"leveldb", ""}, {"kvfile", ""}, {"sqlite", ""},
 		{"buffer", "-1"}, {"buffer", "0"}, {"buffer", "40"}, {"buffer", "1000000"},
-		{"buffer", "40 leveldb"}, {"buffer", "40 kvfile"}, {"buffer", "40 sqlite"}, {"buffer", "1000000 kvfile"}}
+		{"buffer", "40 leveldb"}, {"buffer", "40 kvfile"}, {"buffer", "40 sqlite"}, {"buffer", "1000 kvfile"}}
 
 	// hand-written cases: the witnesses of the findings and the boundary sizes, on every implementation
 	fixed := [][]string{
@@ -745,6 +835,19 @@ func Run(r *hk.Run) {
 		}
 	}
 	r.Sample(map[string]any{"kind": "fixed", "ops": fixed[0]})
+
+	// batches whose commit alone crosses maxBuffer, with delete/set successions on one key: whatever the
+	// buffer does about its size at that moment (today: nothing, only Set flushes) must not reorder the
+	// batch's delete-through with its sets
+	for _, c := range cfgs {
+		max := int64(40)
+		if c.impl == "buffer" {
+			max, _ = strconv.ParseInt(strings.Fields(c.max)[0], 10, 64)
+		}
+		for i, ops := range crossingCases(max) {
+			g.runCase(fmt.Sprintf("fixed-crossing-%d", i), c, ops)
+		}
+	}
 
 	// deterministic large batches: two keys hit alternately, the queue order alone decides the result
 	// (an engine that reorders mutations of one key, e.g. by an unstable sort by key, shows here)
@@ -847,7 +950,7 @@ func Run(r *hk.Run) {
 func probes(r *hk.Run) {
 	// F-C10-1 (fixed by a9fb580): (a) empty key in the buffer, "a" in the backing store: Find lost "a";
 	// (b) empty kvfile backing store, two buffered keys: Find panicked in kvfile's iterator.
-	lost := hk.Guard(func() string {
+	lost := watch(func() string {
 		back := sorted.NewMemoryKeyValue()
 		back.Set("a", "1")
 		b := buffer.New(sorted.NewMemoryKeyValue(), back, 1<<20)
@@ -855,7 +958,7 @@ func probes(r *hk.Run) {
 		rows, st := scan(b.Find("", ""))
 		return st + " " + strings.Join(rows, " ")
 	})
-	pan := hk.Guard(func() string {
+	pan := watch(func() string {
 		dir, err := os.MkdirTemp("", "pkh-c10-probe-")
 		if err != nil {
 			return "err"
@@ -924,20 +1027,18 @@ func probes(r *hk.Run) {
 		dir, err := os.MkdirTemp("", "pkh-c10-probe-")
 		got := "setup-failed"
 		if err == nil {
-			kv, err := openEngine("sqlite", filepath.Join(dir, "probe.sqlite"))
-			if err == nil {
-				kv.Set("a", "1")
-				kv.Close()
-				step := func(f func() string) string {
-					ch := make(chan string, 1)
-					go func() { ch <- hk.Guard(f) }()
-					select {
-					case out := <-ch:
-						return out
-					case <-time.After(hangAfter):
-						return "hang"
-					}
+			var kv sorted.KeyValue
+			if watch(func() string {
+				k, err := openEngine("sqlite", filepath.Join(dir, "probe.sqlite"))
+				if err != nil {
+					return "err"
 				}
+				k.Set("a", "1")
+				k.Close()
+				kv = k
+				return "ok"
+			}) == "ok" {
+				step := watch
 				o1 := step(func() string {
 					b := kv.BeginBatch()
 					b.Set("b", "2")
